@@ -158,6 +158,73 @@ def judge(tr, files, j, point):
         env.rmtree(d)
 
 
+def recover(tr, files, j, point):
+    """The crash image opens with a recognisably uncommitted patch: continuing from it must not damage what was committed.
+
+    R1: open 'r+' (resumes the interrupted patch - no new container), discard_patch -> exactly the committed files remain,
+        byte-identical, showing the state at commit j.
+    R2: open 'r+', close() (commits the resumed patch) -> committed files byte-identical, the record opens again ('r' and 'r+').
+    """
+    cls = ih5.record_class(tr["kind"])
+    committed = tr["commit_imgs"][j]
+    for which in ("discard", "commit"):
+        d = env.fresh_dir("rc")
+        try:
+            T.write_image(files, d)
+            before = set(os.listdir(d))
+            commit_failed = False
+            try:
+                with env.watchdog(30):
+                    r = cls(os.path.join(d, "rec"), "r+")
+            except env.StepTimeout:
+                return _viol("recovery-nonterm", "opening the crash image with 'r+' does not terminate", tr, point)
+            except BaseException as e:
+                if isinstance(e, (KeyboardInterrupt, SystemExit)):
+                    raise
+                continue  # refusing to continue is acceptable
+            try:
+                new = set(os.listdir(d)) - before
+                if any(n.endswith(".ih5") for n in new):
+                    return _viol("recovery-stacked-new-container", f"'r+' on a crash image with an interrupted patch created {sorted(new)} instead of resuming it", tr, point)
+                if which == "discard":
+                    try:
+                        r.discard_patch()
+                    except Exception:
+                        continue
+                else:
+                    try:
+                        r.close()
+                    except Exception:
+                        # the interrupted patch may be physically incomplete (torn HDF5 structures): failing to
+                        # commit it is acceptable - what was committed before must still be intact (checked below)
+                        commit_failed = True
+            finally:
+                try:
+                    r.close(commit=False)
+                except Exception:
+                    pass
+            for name, b in committed.items():
+                p = os.path.join(d, name)
+                if not os.path.exists(p) or open(p, "rb").read() != b:
+                    return _viol("recovery-damaged-committed", f"after 'r+' + {which} on the crash image committed file {name} is changed/removed", tr, point)
+            if commit_failed:
+                continue
+            try:
+                r2 = cls(os.path.join(d, "rec"), "r")
+            except BaseException as e:
+                if isinstance(e, (KeyboardInterrupt, SystemExit)):
+                    raise
+                return _viol("recovery-leaves-unopenable-record", f"after 'r+' + {which} on the crash image the record no longer opens: {type(e).__name__}: {e}", tr, point)
+            try:
+                if which == "discard" and norm(ih5lib.dump(r2)) != tr["commits"][j - 1]["view"]:
+                    return _viol("recovery-discard-view", "after discarding the interrupted patch the record does not show the last committed state", tr, point)
+            finally:
+                r2.close()
+        finally:
+            env.rmtree(d)
+    return None
+
+
 def check_points(task):
     """task = (pickle, event index, list of torn lengths or None for the complete event). Returns (viol|None, n)."""
     pk, idx, torn = task
@@ -174,6 +241,11 @@ def check_points(task):
         jj = j + (1 if (ev[idx][0] == "mark" and ev[idx][1].startswith("commit-done")) else 0)
         v = judge(tr, files, jj, {"event": idx, "torn": None, "phase": phase})
         if isinstance(v, str):
+            if v == "uncommitted" and jj >= 1:
+                rv = recover(tr, files, jj, {"event": idx, "torn": None, "phase": phase})
+                if rv is not None:
+                    return rv, 2, {v: 1}
+                return None, 2, {v: 1, "recovered": 1}
             return None, 1, {v: 1}
         return v, 1, {}
     base = {k: bytearray(b) for k, b in files.items()}
@@ -356,7 +428,8 @@ def run(tier, seed):
         "(create/write/pwrite64/ftruncate/unlink/rename) plus every torn length of every data-carrying write"
         + (" (quick: every length for user-block and manifest writes, first/last 16 and every 16th byte for HDF5 payload writes)" if tier == "quick" else "")
         + "; oracle per image: committed files byte-identical, committed set alone opens with the state at its commit, complete set raises / is recognisably "
-        "uncommitted / shows exactly the last or the new committed state",
+        "uncommitted / shows exactly the last or the new committed state; every syscall-prefix image that opens as uncommitted is also RECOVERED "
+        "twice (r+ then discard_patch / r+ then close): no new container may be stacked, committed files stay byte-identical, the record reopens",
         "samples": [{"cls": "ih5", "history": hists[0], "crash_point": {"event": 20, "torn": 7}}, {"cls": "mf", "history": hists[-1], "crash_point": {"event": 31, "torn": None}}],
     }
     return {
